@@ -218,7 +218,7 @@ def check_local_combination(res, c, where, f=None, comp=0, max_leaves=40, rng=No
         nsch = sum(abs(g.coefficient) for g in c.scheme)
         cond = max(max(abs(float(c.a[k])), abs(float(c.b[k]))) / max(1e-300, min(float(o.end[k]) - float(o.start[k]) for o in leaves(c)) / 2 ** c.lmax[0])
                    for k in range(c.dim))
-        tol = (1e-11 + 4e-16 * cond) * nsch * max(1.0, float(np.max(np.abs(exp))))
+        tol = (1e-11 + 4e-16 * cond) * nsch * max(getattr(f, "magnitude", 1.0), float(np.max(np.abs(exp))))
         res.close("local_nodal_reproduction", vals[:, comp], exp[:, comp], tol, "extsplit_interpolant_not_nodal" + sigsuffix,
                   "%s: c(x) differs from the function at local grid points strictly inside their leaf" % where,
                   {"n_points": len(pts)})
